@@ -39,6 +39,19 @@ Admit(cfg, a) ==
    ELSE IF Len(cfg.allow) > 0 /\ ~InAny(cfg.allow, a) THEN 0
    ELSE LET cand == { k \in 1..Len(cfg.secrets) : InAny(cfg.secrets[k].prefixes, a) } IN
         IF cand = {} THEN 0 ELSE CHOOSE k \in cand : \A j \in cand : k <= j
+\* ---- growth beyond the listed properties: the DNS secret provider (config/secret/dns) as the code has it ----
+\* A secret configuration of kind "dns" serves a connection when one of the names the resolver returns for the remote
+\* address is among its hosts (octet-wise equal, no normalisation of case or trailing dots); configurations are tried in
+\* order like prefix ones. names = what the resolver answered (an observation of the environment, carried in the trace).
+IsDns(s) == "kind" \in DOMAIN s /\ s.kind = "dns"
+HasDns(cfg) == \E k \in 1..Len(cfg.secrets) : IsDns(cfg.secrets[k])
+AdmitNamed(cfg, a, names) ==
+   IF InAny(cfg.deny, a) THEN 0
+   ELSE IF Len(cfg.allow) > 0 /\ ~InAny(cfg.allow, a) THEN 0
+   ELSE LET cand == { k \in 1..Len(cfg.secrets) :
+                        IF IsDns(cfg.secrets[k]) THEN SeqRange(names) \cap SeqRange(cfg.secrets[k].hostsb) # {}
+                        ELSE InAny(cfg.secrets[k].prefixes, a) } IN
+        IF cand = {} THEN 0 ELSE CHOOSE k \in cand : \A j \in cand : k <= j
 \* the case the property leaves open: the first matching configuration has no user (so no provider is built for it)
 AdmitAmbiguous(cfg, a) == LET k == Admit(cfg, a) IN k > 0 /\ (ScopeUserIdx(cfg, cfg.secrets[k].name) = {} \/ ~Servable(cfg, k))
 =============================================================================
